@@ -42,6 +42,7 @@ type Params struct {
 	Txn        []string // transactional log spec (C11): dA dB dN cA cB aA aB
 	AbOrder    int      // permutation index of the aborted index
 	Icpt       int
+	IcptNil    int // >0: the chain entry at this (1-based) position is nil (calling it panics: contained)
 	IcptPanic  int // >0: the consumer interceptor at this (1-based) position panics after counting itself
 	CloseAny   bool
 	BoFunc     bool // Consumer.Retry.BackoffFunc instead of Retry.Backoff
@@ -69,7 +70,7 @@ func Parse(v url.Values) (*Params, error) {
 	p := &Params{N: atoi(v, "n", 3), Cuts: atoi(v, "cuts", 0), Codec: atoi(v, "codec", 1), Ctl: atoi(v, "ctl", 0) == 1,
 		Start: v.Get("start"), FetchSz: atoi(v, "fsz", 0), FetchMax: atoi(v, "fmax", 0), BPF: atoi(v, "bpf", 0), Buf: atoi(v, "buf", 0), NParts: atoi(v, "np", 1),
 		NBrokers: atoi(v, "nb", 1), Slow: atoi(v, "slow", 0) == 1, RC: v.Get("iso") == "rc", AbOrder: atoi(v, "abo", 0), Icpt: atoi(v, "icpt", 0), IcptPanic: atoi(v, "icptpanic", 0),
-		CloseAny: atoi(v, "closeany", 0) == 1, ESlow: atoi(v, "eslow", 0) == 1, BoFunc: atoi(v, "bofunc", 0) == 1, AsyncOnly: atoi(v, "aclose", 0) == 1, Move: atoi(v, "move", 0) == 1, Append: atoi(v, "app", 0) >= 1, AppendPart: max(atoi(v, "app", 0)-1, 0) % 2, AppendMode: atoi(v, "app", 0), Base: int64(atoi(v, "base", 0))}
+		CloseAny: atoi(v, "closeany", 0) == 1, ESlow: atoi(v, "eslow", 0) == 1, IcptNil: atoi(v, "icptnil", 0), BoFunc: atoi(v, "bofunc", 0) == 1, AsyncOnly: atoi(v, "aclose", 0) == 1, Move: atoi(v, "move", 0) == 1, Append: atoi(v, "app", 0) >= 1, AppendPart: max(atoi(v, "app", 0)-1, 0) % 2, AppendMode: atoi(v, "app", 0), Base: int64(atoi(v, "base", 0))}
 	if p.Start == "" {
 		p.Start = "old"
 	}
@@ -450,6 +451,10 @@ func run(c *gx.Ctl, p *Params) *gx.Outcome {
 	}
 	conf.Consumer.Interceptors = append(conf.Consumer.Interceptors, &icpt{r: r, idx: -1})
 	for i := 0; i < p.Icpt; i++ {
+		if p.IcptNil == i+1 {
+			conf.Consumer.Interceptors = append(conf.Consumer.Interceptors, nil)
+			continue
+		}
 		conf.Consumer.Interceptors = append(conf.Consumer.Interceptors, &icpt{r: r, idx: i, panic: p.IcptPanic == i+1})
 	}
 
@@ -916,6 +921,9 @@ func (r *rig) judge(start int64) *gx.Outcome {
 		if p.Icpt > 0 {
 			for _, g := range st.got {
 				for j := 0; j < p.Icpt; j++ {
+					if p.IcptNil == j+1 {
+						continue // the nil entry records nothing
+					}
 					if n := r.icptLog[fmt.Sprintf("%d/%d/%d", k, g.off, j)]; n != 1 {
 						out.Violate("C18", fmt.Sprintf("consumer-interceptor-ran-%d-times", min(n, 2)), "consumer interceptor %d ran %d times for delivered message %d/%d (must be exactly once); invocation order %v", j, n, k, g.off, r.icptSeq)
 					}
